@@ -215,6 +215,21 @@ func init() {
 				hs.Println(hs.MCall(hs.V("s"), "len"), hs.MCall(hs.V("t"), "len")))
 			return p
 		}},
+		callCase{"local-function-values-shadow-declared-functions", func() *hs.Program {
+			ft := hs.TFn(hs.TInt, hs.Field{Name: "x", T: hs.TInt})
+			scale := hs.Fn("scale", hs.TInt, hs.Blk(hs.Bin("*", hs.V("x"), hs.I(10))), intP("x"))
+			// a parameter named like the declared function
+			apply := hs.Fn("apply", hs.TInt, hs.Blk(hs.CallN("scale", hs.V("v"))), hs.P("scale", ft), intP("v"))
+			// a nested block shadows, then the declared function is visible again
+			lit := func(k int64) hs.Expr {
+				return &hs.FnLit{Params: []hs.Field{{Name: "x", T: hs.TInt}}, Ret: hs.TInt, Body: hs.Blk(hs.Bin("+", hs.V("x"), hs.I(k)))}
+			}
+			return mainOnly([]*hs.Func{scale, apply},
+				hs.Println(hs.CallN("scale", hs.I(1)), hs.CallN("apply", lit(100), hs.I(5)), hs.CallN("apply", hs.V("scale"), hs.I(5))),
+				hs.ES(&hs.BlockExpr{B: hs.Blk(nil, hs.LetS("scale", lit(50)), hs.Println(hs.CallN("scale", hs.I(1))))}),
+				hs.Println(hs.CallN("scale", hs.I(2))),
+				hs.LetS("scale", lit(7)), hs.Println(hs.CallN("scale", hs.I(3)), hs.CallN("apply", hs.V("scale"), hs.I(4))))
+		}},
 		callCase{"null-function-as-statement-and-value", func() *hs.Program {
 			f := hs.Fn("side", nil, hs.Blk(nil, hs.Println(hs.S("side"), hs.V("a"))), intP("a"))
 			return mainOnly([]*hs.Func{f}, hs.ES(hs.CallN("side", hs.I(1))), hs.ES(hs.CallN("side", hs.I(2))), hs.LetS("k", hs.I(3)), hs.Println(hs.V("k")))
